@@ -1134,6 +1134,20 @@ def clean_stream(ctx, nframes=None, corrupt_p=0.0, noise_p=0.3):
     return frames, b"".join(parts)
 
 
+def reject_runs(ctx):
+    """long runs of consecutive rejected frames (bad-checksum UBX, junk after a sync byte, bad-checksum NMEA) followed by
+    good frames: how far the reader gets must not depend on how many frames it has refused in a row"""
+    rng = ctx.rng
+    good = gen.frame(b"\x05", b"\x01", b"\x06\x01") + b"$GNGLL,5327.04319,N,00214.41396,W,223232.00,A,A*68\r\n"
+    bad_ubx = bytearray(gen.frame(b"\x05", b"\x01", b"\x06\x01")); bad_ubx[-1] ^= 0x55
+    out = []
+    for n in (rng.choice([1100, 1300]), rng.choice([2100, 3300])):
+        out.append(bytes(bad_ubx) * n + good)
+        out.append(b"\xb5\x00" * n + good)
+    out.append(b"$GNGLL,5327.04319,N,00214.41396,W,223232.00,A,A*00\r\n" * 1200 + good)
+    return out
+
+
 def garbage_stream(ctx):
     """arbitrary bytes rich in preamble fragments, plus mutated frames"""
     rng = ctx.rng
@@ -1449,6 +1463,7 @@ def check_C08(ctx):
     for _ in range(ctx.n(150, 2500)):
         cs = clean_stream(ctx, rng.randrange(1, 4), corrupt_p=0.1)[1]
         streams.append(cs[:rng.randrange(len(cs) + 1)])
+    streams += reject_runs(ctx)
     def variants(s):
         vs = [("file", q, rng.choice([7, 7, 3, 6, 0]), rng.choice([1, 1, 0]), rng.choice([0, 1, 2, 3]), rng.choice([0, 1]), rng.choice([0, 1])) for q in (0, 1, 2)]
         sock = "sock:" + ",".join(str(rng.choice([1, 2, 3, 5, 8, 13, 40, 200])) for _ in range(rng.randrange(1, 6))) + rng.choice(["", "!"])
@@ -1738,6 +1753,7 @@ def check_C12(ctx):
     res = Result()
     rng = ctx.rng
     streams = [clean_stream(ctx, corrupt_p=0.45)[1] if rng.random() < 0.6 else garbage_stream(ctx) for _ in range(ctx.n(800, 15000))]
+    streams += reject_runs(ctx)
     def variants(s):
         F, P, mode, val, bf = rng.choice([7, 7, 3, 6]), 1, rng.choice([0, 3]), rng.choice([0, 1, 1]), rng.choice([0, 1])
         return [("file", q, F, P, mode, val, bf) for q in (0, 1, 2)]
